@@ -313,6 +313,15 @@ void do_op(Ctx &c, const Op &o, int idx) {
       break;
     }
     case O_SWEEP:
+      if (o.b > 1) {
+        // the same full scans many times over: iterators sample what they read (about once per MiB) and a file that
+        // keeps being hit by samples of keys living in two files is scheduled for compaction
+        sim::drain();
+        long comp0 = (long)g_out->probes["log:Compacting "] + (long)g_out->probes["log:Moved #"];
+        for (int i = 0; i < o.b && !failed(); i++) check_scan(c, c.model, nullptr, "C01", "repeated scan");
+        sim::drain();
+        if ((long)g_out->probes["log:Compacting "] + (long)g_out->probes["log:Moved #"] > comp0) probe("iterator_sampling_compactions");
+      }
       structure_checks(c, false, "sweep");
       if (!failed()) sweep(c, "sweep");
       break;
@@ -468,6 +477,45 @@ Plan gen_model(uint64_t seed, const string &prop) {
     { Op o; o.kind = O_COMPACT_RANGE; o.a = N; o.b = 1; o.key = keys[mid - 6]; o.key2 = keys[mid - 4]; p.ops.push_back(o); }
     { Op o; o.kind = O_SWEEP; p.ops.push_back(o); }
     nops = std::min(nops, 60);
+  }
+  // style 4 (bulk): tens of MiB of incompressible data, so that what lcdb decides by size actually happens: levels
+  // >= 1 over their byte limit (size compactions below level 0, compact-pointer rotation), outputs cut because of
+  // grandparent overlap, compactions with many output files, trivial moves refused, memtable output levels limited.
+  // style 5 (read sampling): two overlapping level-0 files of a few large values, scanned over and over.
+  int special = (style == 0 && !g_light) ? (int)r.below(g_thorough ? 30 : 120) : -1;
+  if (special == 0 && keys.size() >= 24 && keys[0].size() < 100) {
+    style = 4; p.seti("style", 4);
+    p.cfg.cmp = 0; p.cfg.comp = 0; p.cfg.mfs = 1 << 20; p.cfg.wbs = r.chance(0.5) ? (4 << 20) : (1 << 20); p.cfg.cache = 0; p.cfg.block = 4096; p.cfg.mof = 1000;
+    p.seti("clock_jumps", 0);
+    auto put = [&](const string &k, uint32_t len) { Op o; o.kind = O_PUT; o.key = k; o.tag = tag++; o.len = len; o.fill = 1; p.ops.push_back(o); };
+    auto flush = [&]() { Op o; o.kind = O_FLUSH; p.ops.push_back(o); };
+    int N = (int)r.range(0, 2);
+    // phase A: 12-16 MiB spread over the whole key space, pushed to level N+2
+    size_t total = 0, target = (size_t)r.range(12, 16) << 20;
+    while (total < target) { uint32_t len = (uint32_t)r.range(100000, 300000); put(keys[r.below(keys.size())], len); total += len; }
+    flush();
+    for (int l = 0; l <= N + 1; l++) { Op o; o.kind = O_COMPACT_RANGE; o.a = l; o.b = 0; p.ops.push_back(o); }
+    // phase B: 6-10 MiB more in a few flushes; automatic compactions take it from here
+    int nfl = (int)r.range(3, 6);
+    for (int f = 0; f < nfl; f++) { size_t part = 0, pt = (size_t)r.range(1, 2) << 20; while (part < pt) { uint32_t len = (uint32_t)r.range(50000, 250000); put(keys[r.below(keys.size())], len); part += len; } flush(); }
+    // one giant entry: a key that does not fit a log block, a value beyond 1 MiB (the iterator's saved-value buffer is
+    // shrunk again after such a value), read backwards
+    { string gk = keys[keys.size() / 3] + string((size_t)r.range(40000, 90000), 'G'); put(gk, (uint32_t)r.range(1500000, 3000000)); keys.push_back(gk); std::sort(keys.begin(), keys.end()); }
+    { Op o; o.kind = O_SWEEP; p.ops.push_back(o); }
+    { Op o; o.kind = O_COMPACT_RANGE; o.a = N + 1; o.b = 1; o.key = keys[keys.size() / 4]; o.key2 = keys[keys.size() / 2]; p.ops.push_back(o); }
+    flush();
+    { Op o; o.kind = O_REOPEN; o.b = 0; p.ops.push_back(o); }
+    nops = (int)r.range(10, 40);
+    w[O_SNAP] = 0; w[O_KILL_RESTART] *= 0.3; w[O_SWEEP] *= 0.3; w[O_ITER_NEW] *= 0.3;
+    tot = 0; for (double x : w) tot += x;
+  } else if (special == 1 && keys.size() >= 6) {
+    style = 5; p.seti("style", 5);
+    p.cfg.cmp = 0; p.cfg.comp = 0; p.cfg.wbs = 4 << 20; p.cfg.mfs = 2 << 20;
+    auto put = [&](const string &k, uint32_t len) { Op o; o.kind = O_PUT; o.key = k; o.tag = tag++; o.len = len; o.fill = 1; p.ops.push_back(o); };
+    int nk = (int)r.range(3, 5);
+    for (int f = 0; f < 2; f++) { for (int q = 0; q < nk; q++) put(keys[(size_t)q * (keys.size() / (size_t)nk)], (uint32_t)r.range(200000, 350000)); Op o; o.kind = O_FLUSH; p.ops.push_back(o); }
+    { Op o; o.kind = O_SWEEP; o.b = (int)r.range(60, 110); p.ops.push_back(o); }
+    nops = (int)r.range(5, 30);
   }
   for (int i = 0; i < nops; i++) {
     double x = r.unit() * tot; int k = 0;
